@@ -734,7 +734,31 @@ func corpus() []ecaseJ {
 		Trailers: []hfield{{"X-T", "v"}}, HeadCL: -1, KeepOpen: true}
 	h10 := xreq{Method: "GET", Proto: "HTTP/1.0", Conn: "keep-alive"}
 	h10c := xreq{Method: "GET", Proto: "HTTP/1.0"}
-	return []ecaseJ{
+	// the decision table of the framing repair, completely: client version/Connection x framing the transport hands over x origin version
+	var table []ecaseJ
+	for _, cl := range []struct {
+		n string
+		q xreq
+	}{{"http11", get("HTTP/1.1")}, {"http10-keepalive", h10}, {"http10", h10c}} {
+		for _, fr := range []struct {
+			n string
+			o oresp
+		}{{"chunked-origin", ch}, {"gzip-solicited", gz}, {"close-delimited-origin", oresp{Proto: "HTTP/1.1", Code: 200, Reason: "OK", Framing: "close", Body: "until close", HeadCL: -1}},
+			{"content-length-origin", plain}} {
+			for _, op := range []string{"HTTP/1.1", "HTTP/1.0"} {
+				o := fr.o
+				o.Proto = op
+				if op == "HTTP/1.0" {
+					if o.Framing == "chunked" {
+						continue // an HTTP/1.0 origin does not chunk
+					}
+					o.Fields = append(o.Fields, hfield{"Connection", "keep-alive"})
+				}
+				table = append(table, ecaseJ{Class: "framing-table:" + cl.n + "/" + fr.n + "/origin-" + op, Exchs: []exchJ{{cl.q, o}, {cl.q, plain}}})
+			}
+		}
+	}
+	return append(table, []ecaseJ{
 		{Class: "head-reply-with-declared-trailers", Exchs: []exchJ{{xreq{Method: "HEAD", Proto: "HTTP/1.1"}, headTr}, {get("HTTP/1.1"), plain}}},
 		{Class: "304-reply-with-declared-trailers", Exchs: []exchJ{{get("HTTP/1.1"), nm}, {get("HTTP/1.1"), plain}}},
 		{Class: "204-reply-with-declared-trailers", Exchs: []exchJ{{get("HTTP/1.1"), nc}, {get("HTTP/1.1"), plain}}},
@@ -753,7 +777,7 @@ func corpus() []ecaseJ {
 			{xreq{Method: "HEAD", Proto: "HTTP/1.1"}, oresp{Proto: "HTTP/1.1", Code: 200, Reason: "OK", Fields: []hfield{{"Connection", "X-A-Hop,x-b-hop ,\tX-C-HOP"}, {"X-A-Hop", "a"}, {"X-B-Hop", "b"}, {"X-C-Hop", "c"}, {"X-Keep", "k"}},
 				Framing: "none", HeadCL: 2, KeepOpen: true}}}},
 		{Class: "chunked-with-trailers", Exchs: []exchJ{{get("HTTP/1.1"), chTr}, {get("HTTP/1.1"), plain}, {xreq{Method: "HEAD", Proto: "HTTP/1.1"}, plain}, {get("HTTP/1.1"), ch}}},
-	}
+	}...)
 }
 
 // ---------------------------------------------------------------- rendering of an e2e case for Coq
